@@ -33,6 +33,13 @@ type DS struct {
 	Log  []Write
 	// FailAfter >= 0: writes with index >= FailAfter are dropped silently (the process is "dead")
 	FailAfter int
+	// OnDrop, if set, is called (outside the lock) for every dropped write: the instant of death as seen
+	// from the datastore. Harnesses use it to sample what an outside observer could last have seen of the
+	// dying process (e.g. a reported height) - values published BEFORE the write that made them durable.
+	OnDrop func(w Write)
+	// ErrOnDrop, if non-nil, is returned for dropped writes instead of nil (a store write FAULT rather
+	// than a process death: the caller sees the error and goes on living).
+	ErrOnDrop error
 }
 
 func New() *DS { return Wrap(dssync.MutexWrap(ds.NewMapDatastore()), nil) }
@@ -56,17 +63,24 @@ func (d *DS) record(w Write) bool {
 	return true
 }
 
+func (d *DS) dropped(w Write) error {
+	if d.OnDrop != nil {
+		d.OnDrop(w)
+	}
+	return d.ErrOnDrop
+}
+
 func (d *DS) Put(ctx context.Context, k ds.Key, v []byte) error {
 	cp := append([]byte{}, v...)
-	if !d.record(Write{Prims: []Prim{{Key: k.String(), Value: cp}}}) {
-		return nil
+	if w := (Write{Prims: []Prim{{Key: k.String(), Value: cp}}}); !d.record(w) {
+		return d.dropped(w)
 	}
 	return d.Batching.Put(ctx, k, v)
 }
 
 func (d *DS) Delete(ctx context.Context, k ds.Key) error {
-	if !d.record(Write{Prims: []Prim{{Key: k.String(), Del: true}}}) {
-		return nil
+	if w := (Write{Prims: []Prim{{Key: k.String(), Del: true}}}); !d.record(w) {
+		return d.dropped(w)
 	}
 	return d.Batching.Delete(ctx, k)
 }
@@ -87,8 +101,8 @@ func (b *batch) Delete(ctx context.Context, k ds.Key) error {
 	return nil
 }
 func (b *batch) Commit(ctx context.Context) error {
-	if !b.d.record(Write{Batch: true, Prims: b.prims}) {
-		return nil
+	if w := (Write{Batch: true, Prims: b.prims}); !b.d.record(w) {
+		return b.d.dropped(w)
 	}
 	inner, err := b.d.Batching.Batch(ctx)
 	if err != nil {
